@@ -47,10 +47,11 @@ EPS = float(np.finfo(float).eps)
 WVL = 0.55
 
 # measured honest error of the pinned tree over the whole thorough scope (seeds 0..3) is noted next to each
-TOL_P = 2e-11     # positions [length units; coordinates are O(10..100)]; honest max 6e-14
-TOL_D = 2e-12     # direction cosines / sines, analytic normal;            honest max 3e-15
-TOL_DQ = 2e-8     # direction cosines when the normal comes from Richardson differences of a Q-type sag; honest max 3e-11
-TOL_ROOT = 1e-9   # |s_impl - s_ref|: consistency of the two formulations of the intersection
+TOL_P = 5e-11     # positions [length units; coordinates are O(10..100), scaled up beyond 100]; honest max 5e-13
+TOL_D = 2e-12     # direction cosines / sines, analytic normal (divided by cos i' for refraction); honest max 1.4e-14
+TOL_DQ = 2e-9     # direction cosines when the normal comes from Richardson differences of a Q-type sag; honest max 8e-13
+TOL_ROOT = 1e-9   # |s_impl - s_ref|: consistency of the two formulations of the intersection;       honest max 1.2e-12
+TOL_UNIT = 1e3 * EPS   # | |S'| - 1 |;                                                                 honest max 10 eps
 
 
 # ---------------------------------------------------------------------------------------------
@@ -380,9 +381,9 @@ def judge_hop(R, g, n0, Pin, Sin, Pout, Sout, live, hop, tally):
     good = j.copy()
     for err, tol, sig, what in ((e_surf, 1.0, f'onsurf:{st}', 'traced point is not on the surface: |z - sag(x,y)|/tol'),
                                 (e_line, 1.0, f'online:{st}', 'traced point is not on the incoming ray: distance/tol'),
-                                (e_root, TOL_ROOT * 100, f'root:{st}', 'ray parameter differs from every reference intersection: |s - s_ref|')):
+                                (e_root, TOL_ROOT, f'root:{st}', 'ray parameter differs from every reference intersection: |s - s_ref|')):
         ok, i = worst(err, j, tol)
-        stat(sig.split(':')[0] + (':q' if g.isq else ''), err, j, tol)
+        stat(sig.split(':')[0] + (':' + g.st if g.isq else ''), err, j, tol)
         R.expect(ok, sig, f'{what} = {float(np.where(np.isfinite(err), err, np.inf)[i]):.3e}; ' + ray(i))
         good &= np.where(np.isfinite(err), err, np.inf) <= tol
     R.nontrivial(bool((j & (np.hypot(qs[:, 0], qs[:, 1]) > 1e-3)).any()))
@@ -426,10 +427,10 @@ def judge_hop(R, g, n0, Pin, Sin, Pout, Sout, live, hop, tally):
         return good
     sos = np.where(j2[:, None], so, 0.0)
     e_unit = np.abs(np.linalg.norm(sos, axis=1) - 1)
-    ok, i = worst(e_unit, j2, 1e3 * EPS)
-    stat('unit', e_unit, j2, 1e3 * EPS)
+    ok, i = worst(e_unit, j2, TOL_UNIT)
+    stat('unit', e_unit, j2, TOL_UNIT)
     R.expect(ok, f'{kind}:unit:{st}', f'outgoing direction cosines are not of unit length: | |S\'| - 1 | = {e_unit[i]:.3e}; ' + ray(i))
-    unit_ok = e_unit <= 1e3 * EPS
+    unit_ok = e_unit <= TOL_UNIT
     good &= unit_ok
     j3 = j2 & unit_ok          # the remaining clauses presuppose a direction
     if not j3.any():
@@ -437,7 +438,7 @@ def judge_hop(R, g, n0, Pin, Sin, Pout, Sout, live, hop, tally):
     e_vec = np.abs(sos - want).max(axis=1) / told
     if not refr:
         ok, i = worst(e_vec, j3, 1.0)
-        stat('reflect' + (':q' if g.isq else ''), e_vec, j3)
+        stat('reflect' + (':' + g.st if g.isq else ''), e_vec, j3)
         R.expect(ok, f'reflect:law:{st}', f'S\' != S - 2 (S.n) n with the true unit normal: max|err|/tol = {e_vec[i]:.3e} '
                                           f'(want local {want[i].tolist()} got local {sos[i].tolist()}); ' + ray(i))
         good &= e_vec <= 1.0
@@ -457,7 +458,7 @@ def judge_hop(R, g, n0, Pin, Sin, Pout, Sout, live, hop, tally):
                                (e_side, f'refract:side:{lab}', 'the refracted ray does not continue through the surface: sign(S\'.n) != sign(S.n)'),
                                (e_vec, f'refract:vector:{st}:{ic}:{lab}', 'S\' != mu S + (sgn sqrt(1 - mu^2 (1 - cos^2 I)) - mu cos I) n: max|err|/tol')):
             ok, i = worst(err, m, 1.0)
-            stat(':'.join(sig.split(':')[:2]) + (':q' if g.isq else ''), err, m)
+            stat(':'.join(sig.split(':')[:2]) + (':' + g.st if g.isq else ''), err, m)
             extra = f' (want local {want[i].tolist()} got local {sos[i].tolist()})' if err is e_vec else ''
             R.expect(ok, sig, f'{what} = {err[i]:.3e}{extra}; ' + ray(i))
             good &= ~m | (err <= 1.0)
@@ -466,7 +467,7 @@ def judge_hop(R, g, n0, Pin, Sin, Pout, Sout, live, hop, tally):
 
 def finite_unit(S):
     with np.errstate(invalid='ignore'):
-        return np.isfinite(S).all(axis=1) & (np.abs(np.linalg.norm(S, axis=1) - 1) <= 1e3 * EPS)
+        return np.isfinite(S).all(axis=1) & (np.abs(np.linalg.norm(S, axis=1) - 1) <= TOL_UNIT)
 
 
 def check_surface_object(R, g, surf):
